@@ -409,6 +409,62 @@ def desugar_option_combinators(crates, table=None):
     return done
 
 
+def desugar_bool_then_some(crates, table=None):
+    """`cond.then_some(v)` is `if cond { Some(v) } else { None }` (v is evaluated either way): rewrite the call into
+    that branch.  Returns [(combinator, caller name)]."""
+    done = []
+    for c in crates:
+        for f in c['fns']:
+            if not f.get('blocks'):
+                continue
+            for bi in range(len(f['blocks'])):
+                blk = f['blocks'][bi]
+                t = blk['term']
+                if t['k'] != 'call' or (t.get('calleep') or '') not in ('<bool>::then_some', '<bool>::then') or len(t['args']) != 2 or t.get('t', -1) is None or t.get('t', -1) < 0:
+                    continue
+                cond, val = t['args']
+                if cond['k'] not in ('copy', 'move') or cond['pl']['p']:
+                    continue
+                line, dest, nxt = t.get('line'), t['dest'], t['t']
+                L = len(f['blocks'])
+                if t['calleep'] == '<bool>::then':
+                    # `cond.then(|| v)`: the closure runs on the true side only
+                    key = _closure_value(f, val)
+                    by_key = {g['key']: g for g in c['fns']}
+                    cl = by_key.get(key or '')
+                    if cl is None or cl.get('kind') != 'Closure':
+                        continue
+                    f['locals'].append('()')
+                    t_l = len(f['locals']) - 1
+                    f['locals'].append('?')
+                    r_l = len(f['locals']) - 1
+                    blk['term'] = {'k': 'switch', 'line': line, 'd': copy.deepcopy(cond), 'ts': [['0', L + 1]], 'o': L, 'desugared': 'then'}
+                    f['blocks'].append({'st': [{'k': 'assign', 'line': line, 'pl': {'l': t_l, 'p': []}, 'rv': {'k': 'agg', 'ak': 'tuple', 'name': '', 'variant': '', 'ops': []}}],
+                                        'term': {'k': 'call', 'line': line, 'exp': False, 'callee': 'core::ops::function::FnOnce::call_once',
+                                                 'calleep': 'core::ops::function::FnOnce::call_once', 'res': cl['key'], 'resp': cl['name'], 'gen': '[]', 'unsafe': False,
+                                                 'local': True, 'fnop': None, 'args': [copy.deepcopy(val), {'k': 'move', 'pl': {'l': t_l, 'p': []}}],
+                                                 'dest': {'l': r_l, 'p': []}, 't': L + 2}, 'cleanup': False})
+                    f['blocks'].append({'st': [{'k': 'assign', 'line': line, 'pl': copy.deepcopy(dest), 'rv': {'k': 'agg', 'ak': 'adt', 'name': 'core::option::Option',
+                                                                                                              'variant': 'None', 'ops': []}}],
+                                        'term': {'k': 'goto', 't': nxt}, 'cleanup': False})
+                    f['blocks'].append({'st': [{'k': 'assign', 'line': line, 'pl': copy.deepcopy(dest), 'rv': {'k': 'agg', 'ak': 'adt', 'name': 'core::option::Option',
+                                                                                                              'variant': 'Some', 'ops': [{'k': 'move', 'pl': {'l': r_l, 'p': []}}]}}],
+                                        'term': {'k': 'goto', 't': nxt}, 'cleanup': False})
+                    f['desugared'] = True
+                    done.append(('bool::then', f['name']))
+                    continue
+                blk['term'] = {'k': 'switch', 'line': line, 'd': copy.deepcopy(cond), 'ts': [['0', L + 1]], 'o': L, 'desugared': 'then_some'}
+                f['blocks'].append({'st': [{'k': 'assign', 'line': line, 'pl': copy.deepcopy(dest), 'rv': {'k': 'agg', 'ak': 'adt', 'name': 'core::option::Option',
+                                                                                                          'variant': 'Some', 'ops': [copy.deepcopy(val)]}}],
+                                    'term': {'k': 'goto', 't': nxt}, 'cleanup': False})
+                f['blocks'].append({'st': [{'k': 'assign', 'line': line, 'pl': copy.deepcopy(dest), 'rv': {'k': 'agg', 'ak': 'adt', 'name': 'core::option::Option',
+                                                                                                          'variant': 'None', 'ops': []}}],
+                                    'term': {'k': 'goto', 't': nxt}, 'cleanup': False})
+                f['desugared'] = True
+                done.append(('bool::then_some', f['name']))
+    return done
+
+
 _RESULT_COMBINATORS = {'map': 2, 'map_err': 2, 'and_then': 2}
 
 
